@@ -173,6 +173,11 @@ def _build(fmt, rs, A, dt, rdt, kind):
         if w is not None and wk == "generic" and np.dtype(dt).kind == "c" and rs.rand() < 0.5:
             w = (w + 1j * gen.arr(rs, [R], rdt, "gauss")).astype(dt)       # a complex model may carry complex weights
             wk = "complex"
+        if np.dtype(dt).kind == "c" and order >= 2 and rs.rand() < 0.3:
+            # a complex model some of whose factors happen to be real arrays (a real loading mode): the dtype of one factor says
+            # nothing about the others
+            real_at = [0] if rs.rand() < 0.6 else rs.choice(order, size=int(rs.randint(1, order)), replace=False).tolist()
+            factors = [gen.arr(rs, [s_, R], rdt) if i_ in real_at else f_ for i_, (s_, f_) in enumerate(zip(shp, factors))]
         wrapper = rs.rand() < 0.5
         mask = (rs.uniform(size=shp) < 0.6).astype(rdt) if rs.rand() < 0.3 else None     # any order, order 1 included
         if mask is not None and rs.rand() < 0.4:
@@ -452,7 +457,10 @@ def _build(fmt, rs, A, dt, rdt, kind):
                 ctx.violation("C03:parafac2:slices:%s" % cls, "parafac2_to_slices returned %d slices for %d rows of A" % (len(sl), I), desc)
             for i in range(min(I, len(sl))):
                 one = p2.parafac2_to_slice(obj, i)
-                for nm, s in (("slices", sl[i]), ("slice", one)):
+                # the same views with the structural validation switched off (a valid decomposition does not need it)
+                one_nv = p2.parafac2_to_slice(obj, i, validate=False)
+                sl_nv = p2.parafac2_to_slices(obj, validate=False)
+                for nm, s in (("slices", sl[i]), ("slice", one), ("slice-validate-off", one_nv), ("slices-validate-off", sl_nv[i])):
                     oks, worst = tol.formula_close(s, slices[i], sabs[i], eps, nt)
                     if not oks:
                         ctx.violation("C03:parafac2:%s:%s" % (nm, cls), "slice %d differs from P_i B diag(a_i*w) C^T (err/bound %.3g)" % (i, worst), {"desc": desc, "backend": be, "got": s, "ref": slices[i]})
